@@ -34,11 +34,14 @@ Definition quiescent_b (s : state Z expr) : bool :=
                        && match ph x with Idle => true | _ => false end
                        && negb (forced x) && (negb (en x) || veqb (src x) (Hub.last x))) (all_ids s).
 
+(* the convergence predicate of Hub.v, as a boolean: the expression is evaluated over the current last read values AND the
+   current enabled flags ($p of a disabled p is an error, which AVAILABLE / DEFAULT catch); silent only on evaluation /
+   coercion errors *)
 Definition follows_b (s : state Z expr) (q : pid) : bool :=
   match (if en (Hub.ports s q) then Hub.expr (Hub.ports s q) else None) with
   | None => true
   | Some e =>
-      match (if dep_off Z expr (deps pname (all_ids s)) s e then OErr else feval pname (all_ids s) 0 e (lasts Z expr s)) with
+      match feval pname (all_ids s) 0 e (Hub.ens s) (lasts Z expr s) with
       | OErr => true
       | OVal v => match coerce q v with
                   | OErr => true
@@ -62,12 +65,12 @@ Definition check_case (c : list (option Z) * list (event Z expr) * list (option 
   end.
 
 (* the specification evaluated directly on what the implementation reports: every port with an expression follows it.
-   exprs: the expression each port has at the end (None = none); final: (last read, driver) values *)
+   exprs: the expression each port has at the end (None = none); final: (last read, driver) values; enl: enabled flags *)
 Definition spec_case (c : list (option expr) * list (option Z * option Z) * list bool) : bool :=
-  let '(exprs, final, ens) := c in
+  let '(exprs, final, enl) := c in
   let n := List.length final in
   let s := Build_state (fun p => Build_port (snd (nth p final (None, None))) (fst (nth p final (None, None)))
-                                            (nth p exprs None) [] Idle false (nth p ens true)) (seq 0 n) None false in
+                                            (nth p exprs None) [] Idle false (nth p enl true)) (seq 0 n) None false in
   forallb (follows_b s) (seq 0 n).
 
 Definition bad_model (cases : list (list (option Z) * list (event Z expr) * list (option Z * option Z))) : list Z :=
